@@ -73,13 +73,18 @@ TraceDKG ==
   /\ ShardsMatch(Ev.shards, ep')
 
 \* the same key generations through the networked runner API: only the outputs are visible; they must be one consistent key
+\* 2/q guard (toy groups only): Gennaro hashes the second Pedersen generator out of the session transcript and its
+\* constructor refuses h = g and h = identity.  On the small toy groups this happens; on q > 251 it must not.
+DegenerateH == Ev.degenH /\ TQ <= 251
 TraceDKGRun ==
   /\ IsEv("dkgRun")
-  /\ Ev.ok
-  /\ LET s == AnyShard(Ev.shards) IN
-       /\ MSPRealises(s.M, s.lab, Ev.pol)
-       /\ Deal(Ev.pol, s.M, s.lab, s.vv)
-  /\ ShardsMatch(Ev.shards, ep')
+  /\ \/ /\ Ev.ok
+        /\ LET s == AnyShard(Ev.shards) IN
+             /\ MSPRealises(s.M, s.lab, Ev.pol)
+             /\ Deal(Ev.pol, s.M, s.lab, s.vv)
+        /\ ShardsMatch(Ev.shards, ep')
+     \/ /\ ~Ev.ok /\ Ev.proto = "gennaro" /\ DegenerateH
+        /\ UNCHANGED <<ep, prevEp, pend, x0>>
 
 \* stored and reloaded key material is unchanged (same bytes, Equal, and the same projected values)
 TraceReload ==
@@ -92,7 +97,8 @@ TraceReload ==
 \* qualified alone (one-column programmes are refused by design)
 TraceDealRefused ==
   /\ IsEv("dealRefused")
-  /\ \E h \in PolicyHolders(Ev.pol) : Qualified(Ev.pol, {h})
+  /\ \/ \E h \in PolicyHolders(Ev.pol) : Qualified(Ev.pol, {h})
+     \/ DegenerateH
   /\ UNCHANGED <<ep, prevEp, pend, x0>>
 
 SetOf(s) == {s[i] : i \in 1..Len(s)}
